@@ -240,6 +240,28 @@ for (Cn, Rn) in [(c, r) for c in (2, 3, 4) for r in (2, 3, 4)]:
         '%s(%s)' % (vec_t(Rn, tag), ', '.join('a%d%d' % (c, r) for r in range(Rn))) for c in range(Cn)), mat_store(Cn, Rn, 'm')), outs=[('float', 'out', Cn * Rn)])
     contracts.append((name, MTn + '  mat(column vectors)', dict(build='ctor', ensures=[
         ('e_c%d_r%d' % (c, r), beq(tag, 'out[%d]' % (c * Rn + r), 'a%d%d' % (c, r))) for c in range(Cn) for r in range(Rn)])))
+# the templated matrix constructors mat(X0, Y0, X1, Y1, ...) and mat(vec<R, V0>, vec<R, V1>, ...): every argument of its own type, neighbours always
+# differ (cycle f64, i32, u32, f32, shifted per column), every argument symbolic: element (c, r) is static_cast<float>(argument (c, r)) - a cast
+# through a neighbour's type (seed C17_2) loses values of at least one of the four types
+MIXCYC = ['f64', 'i32', 'u32', 'f32']
+for (Cn, Rn) in [(c, r) for c in (2, 3, 4) for r in (2, 3, 4)]:
+    MTn = 'glm/detail/type_mat%dx%d.inl' % (Cn, Rn)
+    ty = {(c, r): MIXCYC[(c * Rn + r + c) % 4] for c in range(Cn) for r in range(Rn)}
+    ins = [(cpp_type(ty[(c, r)]), 'a%d%d' % (c, r)) for c in range(Cn) for r in range(Rn)]
+    ens = [('e_c%d_r%d_is_cast_of_own_argument' % (c, r), beq('f32', 'out[%d]' % (c * Rn + r), conv_expr('f32', ty[(c, r)], 'a%d%d' % (c, r))))
+           for c in range(Cn) for r in range(Rn)]
+    name = 'glm_ctor_mat%dx%d_scalars_mixed_types' % (Cn, Rn)
+    dc.shim(name, 'void', ins, 'auto m = %s(%s); %s' % (mat_t(Cn, Rn, 'f32'), ', '.join(n for _, n in ins), mat_store(Cn, Rn, 'm')), outs=[('float', 'out', Cn * Rn)])
+    contracts.append((name, MTn + '  template mat(X0, Y0, ...): C*R scalars of different types', dict(build='ctor', ensures=ens)))
+    # column vectors of different element types (one type per column)
+    cty = [MIXCYC[(c + 1) % 4] for c in range(Cn)]
+    ins2 = [(cpp_type(cty[c]), 'a%d%d' % (c, r)) for c in range(Cn) for r in range(Rn)]
+    ens2 = [('e_c%d_r%d_is_cast_of_own_argument' % (c, r), beq('f32', 'out[%d]' % (c * Rn + r), conv_expr('f32', cty[c], 'a%d%d' % (c, r))))
+            for c in range(Cn) for r in range(Rn)]
+    name = 'glm_ctor_mat%dx%d_columns_mixed_types' % (Cn, Rn)
+    dc.shim(name, 'void', ins2, 'auto m = %s(%s); %s' % (mat_t(Cn, Rn, 'f32'), ', '.join(
+        '%s(%s)' % (vec_t(Rn, cty[c]), ', '.join('a%d%d' % (c, r) for r in range(Rn))) for c in range(Cn)), mat_store(Cn, Rn, 'm')), outs=[('float', 'out', Cn * Rn)])
+    contracts.append((name, MTn + '  template mat(vec<R, V0>, vec<R, V1>, ...): columns of different element types', dict(build='ctor', ensures=ens2)))
 # quaternion constructors (named components, configuration independent)
 QS = 'out[0] = q.w; out[1] = q.x; out[2] = q.y; out[3] = q.z;'
 dc.shim('glm_ctor_quat_wxyz', 'void', [('float', c) for c in 'wxyz'], 'glm::quat q(w, x, y, z); ' + QS, outs=[('float', 'out', 4)])
